@@ -330,6 +330,7 @@ def run(c):
     if outs is not None:
         c.obligation("correspondence: Model/Plan+Join == compile()+DuckDB on filtered queries (%d compared)" % stats["compared_spec"], not fid_bad, "correspondence", json.dumps(fid_bad[:1], default=str)[:1800])
     having_and_local(c, stats)
+    having_with_rollup(c, stats)
     suffix_names(c, stats)
     c.obligation("oracle: semi-join spec and metamorphic filter forms agree on %d queries x 5 forms" % len(cases), not c.violations, "correspondence")
     c.coverage.update({"evaluations": stats["variants_run"], "distinct_nontrivial": nontrivial,
@@ -365,6 +366,50 @@ def having_and_local(c, stats):
         stats["metric_local"] += 1
         if dbutil.canon_rows([r[:2] for r in loc]) != dbutil.canon_rows([r[:2] for r in base]):
             c.violation("a filter declared on one metric changes another metric", {"kind": "local", "forest": f, "without": [list(map(str, r)) for r in base], "with": [list(map(str, r)) for r in loc]})
+
+
+def having_with_rollup(c, stats):
+    """a filter over a metric's value when a rollup of the model is available (use_preaggregations on and off): whatever table answers the query, the filter keeps
+    exactly the groups of the unfiltered result whose value satisfies it -- also when a group's rollup rows lie on both sides of the threshold"""
+    import random
+    from harness import dbutil
+    from sidemantic import Dimension, Metric, Model
+    from sidemantic.core.pre_aggregation import PreAggregation
+    rng = random.Random(c.seed * 17 + 5)          # a stream of its own
+    for k in range(6 if c.tier == "quick" else 60):
+        L = dbutil.fresh_layer()
+        L.conn.execute("create table ev(id bigint, cat varchar, ts timestamp, amt bigint)")
+        rows = []
+        for i in range(rng.choice([8, 12, 16])):
+            rows.append((i + 1, rng.choice(["a", "a", "b", "c"]), "2024-01-%02d 0%d:00:00" % (rng.choice([1, 1, 2, 3, 15]), rng.randint(0, 9)), rng.choice([5, 10, 20, 40, 60, 80])))
+        L.conn.executemany("insert into ev values (?,?,?,?)", rows)
+        model = Model(name="ev", table="ev", primary_key="id", dimensions=[Dimension(name="cat", type="categorical"), Dimension(name="ts", type="time", granularity="day", sql="ts")],
+                      metrics=[Metric(name="total", agg="sum", sql="amt"), Metric(name="n", agg="count"), Metric(name="top", agg="max", sql="amt")],
+                      pre_aggregations=[PreAggregation(name="r", measures=["total", "n", "top"], dimensions=["cat"], time_dimension="ts", granularity="day")])
+        L.add_model(model)
+        pre = model.pre_aggregations[0]
+        L.conn.execute("create table %s as %s" % (pre.get_table_name("ev"), pre.generate_materialization_sql(model)))
+        thr = rng.choice([15, 50, 70, 100])
+        for dims in (["ev.cat"], ["ev.cat", "ev.ts__day"], ["ev.cat", "ev.ts__month"], []):
+            for met, idx_name in (("ev.total", "total"), ("ev.n", "n"), ("ev.top", "top")):
+                t = thr if met != "ev.n" else rng.choice([1, 2, 3])
+                for use in (False, True):
+                    kw = dict(metrics=["ev.total", "ev.n", "ev.top"], dimensions=dims, use_preaggregations=use)
+                    try:
+                        cur = L.conn.execute(L.compile(**kw))
+                        cols = [d[0] for d in cur.description]
+                        base = cur.fetchall()
+                        hav = L.conn.execute(L.compile(filters=["%s > %d" % (met, t)], **kw)).fetchall()
+                    except Exception as e:
+                        c.violation("metric-value filter fails with a rollup available: %s" % str(e)[:150], {"kind": "having_rollup", "rows": rows, "dims": dims, "metric": met, "threshold": t, "use_preaggregations": use})
+                        continue
+                    stats["having"] += 1
+                    j = cols.index(idx_name)
+                    want = [r for r in base if r[j] is not None and r[j] > t]
+                    if dbutil.canon_rows(hav) != dbutil.canon_rows(want):
+                        c.violation("a filter over a metric's value is not applied after aggregation (rollup available, use_preaggregations=%s)" % use,
+                                    {"kind": "having_rollup", "rows": rows, "dims": dims, "metric": met, "threshold": t, "use_preaggregations": use,
+                                     "expected": [list(map(str, r)) for r in want[:8]], "filtered": [list(map(str, r)) for r in hav[:8]]})
 
 
 def rename_forest(f, mapping):
